@@ -394,6 +394,18 @@ Definition scan_llhs (before : list av) (nb : Z) : option av :=
   | _ => back before 1
   end.
 
+(* llhsarg_is_useless and the left neighbour *)
+Definition scan_useless (before : list av) (nb : Z) (lhs : av) : option (bool * av) :=
+  if nb <? 1 then Some (true, lhs)
+  else match scan_llhs before nb with
+       | None => None
+       | Some l =>
+           if negb (types_match (av_type l) (av_type lhs)) then Some (true, l)
+           else match av_cmp_single l lhs with
+                | Some c => Some (c =? 0, l)
+                | None => None end
+       end.
+
 (* the ellipsis part: vs are the slots of the value just scanned, r the
    position after it (white space, then "...") *)
 Definition scan_ellipsis (rec : scan_t) (vs : list av) (r : str) (before : list av) (nb : Z)
@@ -409,16 +421,7 @@ Definition scan_ellipsis (rec : scan_t) (vs : list av) (r : str) (before : list 
                        | Null => Null | Unmod => Unmod | NoFuel => NoFuel end in
       match rhsr with
       | Ok (rhs, r2) =>
-          let useless_llhs : option (bool * av) :=
-            if nb <? 1 then Some (true, lhs)
-            else match scan_llhs before nb with
-                 | None => None
-                 | Some l =>
-                     if negb (types_match (av_type l) (av_type lhs)) then Some (true, l)
-                     else match av_cmp_single l lhs with
-                          | Some c => Some (c =? 0, l)
-                          | None => None end
-                 end in
+          let useless_llhs := scan_useless before nb lhs in
           match useless_llhs with
           | None => Unmod
           | Some (useless, llhs) =>
@@ -587,6 +590,44 @@ Definition skip_core (rec : skip_t) (src : str) (inside_bundle : bool) : R (str 
 Definition numeric_range_type (t : Z) : bool :=
   (t =? 99) || (t =? 105) || (t =? 104) || (t =? 102) || (t =? 100) || (t =? 84) || (t =? 70).
 
+(* where the checker looks for the left neighbour: after the ellipsis of a
+   preceding range, after the "Nx" of a repetition, or at the previous value *)
+Definition chk_l1 (l0 ell : str) : option str :=
+  match find_ellipsis l0 0 with
+  | None => None
+  | Some ne => Some (if Nat.ltb (length ell) (length ne) then skip_ws (skipn 3 ne)
+                     else if is_range_multiplier l0 then after_x l0 else l0)
+  end.
+
+(* its type and value against the left-hand side: Ok (useless, llhsarg) *)
+Definition chk_cmp (rec : skip_t) (sfuel : nat) (l1 : str) (lhstype : Z) (lhsarg : option av)
+           (inside_bundle : bool) : R (bool * option av) :=
+  match rec l1 None false inside_bundle with
+  | Ok (_, _, lty) =>
+      if types_match lty lhstype
+      then match scan1 sfuel l1, lhsarg with
+           | Some la, Some lh =>
+               match av_cmp_single la lh with
+               | Some c => Ok (c =? 0, Some la)
+               | None => Unmod end
+           | _, _ => Unmod end
+      else Ok (true, None)
+  | Null => Ok (true, None)      (* llhstype stays what it was *)
+  | Unmod => Unmod | NoFuel => NoFuel
+  end.
+
+(* "is llhs given and useful?": Ok (useless, llhsarg) *)
+Definition chk_llhs (rec : skip_t) (sfuel : nat) (llhs : option str) (ell : str) (lhstype : Z)
+           (lhsarg : option av) (inside_bundle : bool) : R (bool * option av) :=
+  match llhs with
+  | None => Ok (true, None)
+  | Some l0 =>
+      match chk_l1 l0 ell with
+      | None => Unmod
+      | Some l1 => chk_cmp rec sfuel l1 lhstype lhsarg inside_bundle
+      end
+  end.
+
 (* the ellipsis part of the checker.  old_src: start of the value, r: position
    after it, ty / dlt: its type and deltaless_range_type, k: skipped so far *)
 Definition skip_ellipsis (rec : skip_t) (sfuel : nat) (old_src r : str) (k ty dlt : Z)
@@ -608,32 +649,7 @@ Definition skip_ellipsis (rec : skip_t) (sfuel : nat) (old_src r : str) (k ty dl
       if negb (lhstype =? rhstype) then Null else
       if negb infinite && (match rhsarg with None => true | Some _ => false end) then Unmod else
       let lhsarg := if numeric then scan1 sfuel lhssrc else None in
-      (* is llhs given and useful?  Some (useless, llhsarg) *)
-      let ul : R (bool * option av) :=
-        match llhs with
-        | None => Ok (true, None)
-        | Some l0 =>
-            match find_ellipsis l0 0 with
-            | None => Unmod
-            | Some ne =>
-                let l1 := if Nat.ltb (length ell) (length ne) then skip_ws (skipn 3 ne)
-                          else if is_range_multiplier l0 then after_x l0 else l0 in
-                match rec l1 None false inside_bundle with
-                | Ok (_, _, lty) =>
-                    if types_match lty lhstype
-                    then match scan1 sfuel l1, lhsarg with
-                         | Some la, Some lh =>
-                             match av_cmp_single la lh with
-                             | Some c => Ok (c =? 0, Some la)
-                             | None => Unmod end
-                         | _, _ => Unmod end
-                    else Ok (true, None)
-                | Null => Ok (true, None)      (* llhstype stays what it was *)
-                | Unmod => Unmod | NoFuel => NoFuel
-                end
-            end
-        end in
-      match ul with
+      match chk_llhs rec sfuel llhs ell lhstype lhsarg inside_bundle with
       | Ok (useless, llhsarg) =>
           if infinite && (useless || negb numeric) then Ok (endsrc, k + 1, 45)
           else
